@@ -206,7 +206,9 @@ class MibCompiler(object):
         borrowedMibs = {}
         builtMibs = {}
         symbolTableMap = {}
-        mibsToParse = [x for x in mibnames]
+        # requested names are file names (the modules inside may be called
+        # differently), names from IMPORTS clauses are module names
+        mibsToParse = [(x, True) for x in mibnames]
         canonicalMibNames = {}
         lookedUpMibs = set()
         brokenMibImports = {}
@@ -219,18 +221,19 @@ class MibCompiler(object):
                 for mibname in sorted(brokenMibImports):
                     imported = brokenMibImports.pop(mibname)
                     if mibname in failedMibs:
-                        mibsToParse.extend(imported)
+                        mibsToParse.extend([(x, False) for x in imported])
 
                 continue
 
-            mibname = mibsToParse.pop(0)
+            mibname, requested = mibsToParse.pop(0)
 
-            # a name is looked up once per call, even if the file found under
-            # that name holds a module that is called differently
-            if mibname in lookedUpMibs:
+            # a name is looked up once per call as a file name and once as a
+            # module name, even if the file found under that name holds a
+            # module that is called differently
+            if (mibname, requested) in lookedUpMibs:
                 continue
 
-            lookedUpMibs.add(mibname)
+            lookedUpMibs.add((mibname, requested))
 
             if mibname in parsedMibs:
                 debug.logger & debug.flagCompiler and debug.logger('MIB %s already parsed' % mibname)
@@ -249,7 +252,7 @@ class MibCompiler(object):
                         debug.logger & debug.flagCompiler and debug.logger(
                             '%s has been read before' % fileInfo.path)
 
-                        if mibname in mibnames:
+                        if requested:
                             if mibname in failedMibs:
                                 # an earlier source failed on this name
                                 del failedMibs[mibname]
@@ -310,7 +313,7 @@ class MibCompiler(object):
 
                             brokenMibs.add(mibTree[0])
 
-                            if mibname in mibnames:
+                            if requested:
                                 # part of a requested file, as its sound
                                 # modules are
                                 canonicalMibNames.setdefault(mibTree[0], [])
@@ -340,9 +343,9 @@ class MibCompiler(object):
                             if processed.get(mibInfo.name) in (statusFailed, statusMissing):
                                 del processed[mibInfo.name]
 
-                        mibsToParse.extend(mibInfo.imported)
+                        mibsToParse.extend([(x, False) for x in mibInfo.imported])
 
-                        if mibname in mibnames:
+                        if requested:
                             if mibInfo.name not in canonicalMibNames:
                                 canonicalMibNames[mibInfo.name] = []
                             canonicalMibNames[mibInfo.name].append(fileInfo.name)
@@ -356,7 +359,7 @@ class MibCompiler(object):
                         # file, a later source may have a sound copy
                         continue
 
-                    if mibname not in mibnames and mibname not in parsedMibs:
+                    if not requested and mibname not in parsedMibs:
                         # a name taken from an IMPORTS clause is a module
                         # name; this file holds modules called differently
                         debug.logger & debug.flagCompiler and debug.logger(
